@@ -107,6 +107,25 @@ def small_sessions(py7zr):
         yield (f"append-small#{names}", base, list(f2.ops), member_map(py7zr, base), member_map(py7zr, f2.getvalue()), None)
 
 
+def overwrite_sessions(py7zr):
+    """a create session ('w') on a stream that already holds an archive (a reused buffer, a file the caller opened r+b): from its first
+    step on the old signature header must stop vouching for data that is being overwritten (seed C14-7)"""
+    for k, (oldn, newn, filt) in enumerate(((["old1.bin", "old2.txt"], ["n1"], None), (["old1.bin"], ["n1", "n2", "n3"], [{"id": 0x33}]),
+                                            (["o1", "o2", "o3"], [], None), (["o1", "o2"], ["n1", "n2"], [{"id": 0x33}]))):
+        f = crash.RecordingFile()
+        z = py7zr.SevenZipFile(f, "w", filters=[{"id": 0x33}] if k % 2 == 0 else None)
+        for nm in oldn:
+            z.writestr((b"old content of " + nm.encode()) * 9, nm)
+        z.close()
+        base = f.getvalue()
+        f2 = crash.RecordingFile(base)
+        z = py7zr.SevenZipFile(f2, "w", filters=filt)
+        for nm in newn:
+            z.writestr((b"new content of " + nm.encode()) * 7, nm)
+        z.close()
+        yield (f"create-over#{k} old={len(oldn)} new={len(newn)}", base, list(f2.ops), member_map(py7zr, base), member_map(py7zr, f2.getvalue()), None)
+
+
 def check_order(desc, initial, ops, rep):
     ops = [(o, d) for (o, d) in ops if d is not None]          # (a final truncate cuts the file behind the end header: no write)
     """T: the write stream follows the commit order of Crash.tla: nothing touches offset < 32 between the first and the final
@@ -126,7 +145,16 @@ def check_order(desc, initial, ops, rep):
     if pos != 32:
         rep.violation("order:signature-header-not-last", f"{desc}: the bytes 0..32 are not rewritten as the last step (covered up to {pos})",
                       {"ops": [(o, len(d)) for o, d in ops]})
-    early = [k for k in sig_writes if k < last_body and initial != b""]
+    early = [k for k in sig_writes if k < last_body and initial != b"" and not desc.startswith("create")]
+    first_body = min([k for k, (off, d) in enumerate(ops) if off >= 32], default=len(ops))
+    lead, at = sorted((ops[k][0], ops[k][0] + len(ops[k][1])) for k in range(first_body)), 0
+    for a, b in lead:
+        if a > at:
+            break
+        at = max(at, b)
+    if initial != b"" and desc.startswith("create") and at < 32:
+        rep.violation("order:create-leaves-old-signature-header", f"{desc}: a create session on a stream that holds an archive does not begin by "
+                      "replacing the old signature header", {"ops": [(o, len(d)) for o, d in ops]})
     if early:
         rep.violation("order:append-touches-signature-header-early", f"{desc}: an append session wrote into the signature header before its data",
                       {"ops": [(o, len(d)) for o, d in ops]})
@@ -152,7 +180,7 @@ def run(tier, rep, ev):
     total = 0
     step = 1
     import itertools
-    for desc, initial, ops, old, new, pw in itertools.chain(sessions(py7zr, R, tier), small_sessions(py7zr)):
+    for desc, initial, ops, old, new, pw in itertools.chain(sessions(py7zr, R, tier), small_sessions(py7zr), overwrite_sessions(py7zr)):
         check_order(desc, initial, ops, rep)
         cases, labels = [], []
         for label, img in crash.images(initial, ops, step=step):
